@@ -48,6 +48,9 @@ mod table {
 }
 pub use table::{GAMESPY_GAMES, QUAKE_GAMES, UNREAL2_GAMES, VALVE_GAMES};
 
+/// The host name Eco queries of level 3 put into their extra settings.
+pub const ECO_HOST_NAME: &str = "eco-server.invalid";
+
 /// A uniform observation of a successful query.
 #[derive(Debug, Clone)]
 pub enum Resp {
@@ -379,7 +382,13 @@ fn invoke_inner(call: &Call) -> GDResult<Resp> {
             Resp::Eco(match level {
                 0 => games::eco::query(ip, port)?,
                 1 => games::eco::query_with_timeout(ip, port, &ts)?,
-                _ => games::eco::query_with_timeout_and_extra_settings(ip, port, &ts, None)?,
+                2 => games::eco::query_with_timeout_and_extra_settings(ip, port, &ts, None)?,
+                // with a host name in the extra settings (a name that never resolves: the connection must
+                // still go to the caller's address, only the Host header changes)
+                _ => {
+                    let extra = ExtraRequestSettings { hostname: Some(ECO_HOST_NAME.to_string()), protocol_version: None, gather_players: None, gather_rules: None, check_app_id: None };
+                    games::eco::query_with_timeout_and_extra_settings(ip, port, &ts, Some(extra.into()))?
+                }
             })
         }
         Entry::Generic { game_id, extra, level } => {
